@@ -162,6 +162,15 @@ impl<F: Float, O> Platt<F, O> {
     }
 }
 
+#[cfg(linfa_verif)]
+impl<F: Float, O> Platt<F, O> {
+    /// verification hook (C03): a calibrated model from given sigmoid parameters and inner model, so
+    /// that `predict_inplace` can be driven with chosen `A`, `B` and a scripted inner model
+    pub fn verif_from_parts(a: F, b: F, obj: O) -> Self {
+        Platt { a, b, obj }
+    }
+}
+
 impl<'a, F: Float, O: 'a> FitWith<'a, Array2<F>, Array1<bool>, PlattError>
     for PlattValidParams<F, O>
 where
